@@ -361,3 +361,72 @@ for _n in (3, 4):
 # variable handles (shared with C14/C15)
 from . import variables as _variables  # noqa: E402
 _variables.register('C01', ['C01'])
+
+
+# ------------------------------------------------------------------------------------------
+# interacting pickups and solves: after update() *each* of them holds (acyclic dependencies)
+# ------------------------------------------------------------------------------------------
+def _pickup_chain_contract(attr):
+    @contract('C01.update.chain.' + attr, ['optiland/pickup.py:PickupManager.apply', 'optiland/pickup.py:Pickup.apply', OP + ':Optic.update'], ['C01'],
+              max_paths=64)
+    def ch(c):
+        """two pickups entered in the adverse order (the first reads what the second writes): 3 <- 2, then 2 <- 1"""
+        lens, v = arbitrary_lens(c, 5, stop=1)
+        sg = lens.surface_group
+
+        def get(idx):
+            if attr == 'radius':
+                return c.val(sg.radii[idx])
+            if attr == 'conic':
+                return c.val(sg.conic[idx])
+            return c.val(sg.get_thickness(idx))
+
+        def put(val, idx):
+            {'radius': lens.set_radius, 'conic': lens.set_conic, 'thickness': lens.set_thickness}[attr](val, idx)
+        s1, o1 = c.real('scale_a', -2.0, 2.0, nonzero=True), c.real('offset_a', 1.0, 5.0, positive=True)
+        s2, o2 = c.real('scale_b', -2.0, 2.0, nonzero=True), c.real('offset_b', 1.0, 5.0, positive=True)
+        if attr == 'radius':
+            c.require(s2 * get(1) + o2 != 0)
+            c.require(s1 * get(2) + o1 != 0)
+            c.require(s1 * (s2 * get(1) + o2) + o1 != 0)
+        lens.pickups.add(2, attr, 3, s1, o1)
+        lens.pickups.add(1, attr, 2, s2, o2)
+        new = c.real('new_source', 1.0, 50.0, positive=True)
+        if attr == 'radius':
+            c.require(s2 * new + o2 != 0)
+            c.require(s1 * (s2 * new + o2) + o1 != 0)
+        put(new, 1)
+        lens.update()
+        c.ensure_eq('C01.update.every_pickup_of_a_chain_holds', get(2), s2 * get(1) + o2)
+        c.ensure_eq('C01.update.every_pickup_of_a_chain_holds', get(3), s1 * get(2) + o1)
+        c.ensure_eq('C01.update.chain_source_kept', get(1), new)
+    return ch
+
+
+for _a in ('radius', 'conic', 'thickness'):
+    _pickup_chain_contract(_a)
+
+
+@contract('C01.update.pickup_of_solved_thickness', ['optiland/pickup.py:PickupManager.apply', 'optiland/solves.py:SolveManager.apply',
+                                                    'optiland/solves.py:MarginalRayHeightSolve.apply', OP + ':Optic.update'], ['C01'], max_paths=64, groebner_s=40)
+def pickup_of_solved_thickness(c):
+    """a thickness pickup whose source is the gap in front of a solved surface: after an edit and one update() the solve holds
+    and the pickup target follows the gap the solve produced"""
+    lens, v = arbitrary_lens(c, 5, stop=1, finite_object=False)
+    lens.add_wavelength(0.55, is_primary=True)
+    lens.set_aperture('EPD', c.real('EPD', 0.5, 10.0, positive=True))
+    sg = lens.surface_group
+    h = c.real('height', -2.0, 2.0)
+    sc, of = c.real('scale', 0.5, 2.0, positive=True), c.real('offset', 0.0, 3.0, nonneg=True)
+    ya0, ua0 = lens.paraxial.marginal_ray()
+    c.require(c.val(ua0[1]) != 0)
+    lens.solves.add('marginal_ray_height', 2, h)
+    lens.pickups.add(1, 'thickness', 3, sc, of)
+    newR = c.real('new_radius', 20.0, 80.0, positive=True)
+    lens.set_radius(newR, 1)
+    _, ua1 = lens.paraxial.marginal_ray()
+    c.require(c.val(ua1[1]) != 0)
+    lens.update()
+    ya, _ = lens.paraxial.marginal_ray()
+    c.ensure_eq('C01.update.solve_holds_next_to_a_dependent_pickup', c.val(ya[2]), h)
+    c.ensure_eq('C01.update.pickup_follows_the_solved_gap', c.val(sg.get_thickness(3)), sc * c.val(sg.get_thickness(1)) + of)
